@@ -541,10 +541,10 @@ PLANS = {
                 'output of integer and fixpnt is compared byte by byte with the exact expansion; random decimal / hexadecimal digit strings up to the '
                 'capacity of the type (+1 digit) must parse to that integer mod 2^nbits. The strings themselves (posit hex_format, cfloat and '
                 'fixpnt to_binary, integer to_hex) are compared byte for byte with the model strings, and the transcribed assign() parsers '
-                '(cf_assign, fx_assign: proved inverse to the printers for every width) are compared with cfloat::assign / fixpnt::assign on the '
+                '(cf_assign, fx_assign, posit_parse: proved inverse to the printers for every width) are compared with cfloat::assign / fixpnt::assign / posit parse() on the '
                 'printed strings and on mutated ones (nibble marker inserted, one character replaced or deleted, a separator moved). '
                 'non-trivial = all; distinct = distinct lines',
-        'assumptions': ['einteger/edecimal decimal output is covered by C14', 'the posit text parser (std::regex + istringstream) and the fixpnt decimal branch (marked TBD in the library) are not transcribed; posit round trips are decided per case on the implementation'],
+        'assumptions': ['einteger/edecimal decimal output is covered by C14', 'texts that do not match the posit pattern (the library reads them as floating-point literals) and the fixpnt decimal branch (marked TBD in the library) are not transcribed: such strings are run but not judged'],
         'streams': [{'name': 'text_exh', 'driver': 'text_all', 'what': 'text forms, every encoding of the small configurations', 'exhaustive': {'quick': True, 'thorough': True},
                      'runs': {'quick': [dict(args=['--mode', 'exh'], shards=8)], 'thorough': [dict(args=['--mode', 'exh'], shards=8)]}},
                     {'name': 'text_rnd', 'driver': 'text_all', 'what': 'text forms, structured samples of the large configurations',
